@@ -182,25 +182,26 @@ type cnode struct {
 }
 
 type cluster struct {
-	rng     *rand.Rand
-	h       *hist
-	nodes   []*cnode
-	inj     *raft.InmemTransport
-	mu      sync.Mutex
-	blocked map[[2]int]bool // directed pairs that drop everything
-	holdMs  map[[2]int]int  // responses on this directed pair (responder, requester) are held this long
-	litmus  bool
-	hbLong  bool
-	pv2     bool // every server runs protocol version 2
-	track   bool // commit-tracking log stores with RestoreCommittedLogs
-	slowFSM bool // some FSMs take a few virtual ms per Apply
-	delayMs int
-	dropPct int
-	dupPct  int
-	wg      sync.WaitGroup
-	pay     int
-	calls   int
-	stopped bool
+	rng      *rand.Rand
+	h        *hist
+	nodes    []*cnode
+	inj      *raft.InmemTransport
+	mu       sync.Mutex
+	blocked  map[[2]int]bool // directed pairs that drop everything
+	holdMs   map[[2]int]int  // responses on this directed pair (responder, requester) are held this long
+	litmus   bool
+	hbLong   bool
+	verySlow bool // the slow-clock server is slower still
+	pv2      bool // every server runs protocol version 2
+	track    bool // commit-tracking log stores with RestoreCommittedLogs
+	slowFSM  bool // some FSMs take a few virtual ms per Apply
+	delayMs  int
+	dropPct  int
+	dupPct   int
+	wg       sync.WaitGroup
+	pay      int
+	calls    int
+	stopped  bool
 }
 
 // idIsAddr: protocol version 2 requires a server's ID to be its address (set per case)
@@ -258,6 +259,11 @@ func (c *cluster) conf(i int, n *cnode) *raft.Config {
 		conf.HeartbeatTimeout = 300 * time.Millisecond
 		conf.ElectionTimeout = 300 * time.Millisecond
 		conf.LeaderLeaseTimeout = 300 * time.Millisecond
+		if c.verySlow {
+			conf.HeartbeatTimeout = 700 * time.Millisecond
+			conf.ElectionTimeout = 700 * time.Millisecond
+			conf.LeaderLeaseTimeout = 700 * time.Millisecond
+		}
 	}
 	conf.CommitTimeout = 5 * time.Millisecond
 	conf.SnapshotInterval = 3600 * time.Second
@@ -602,7 +608,11 @@ func runClusterCase(rng *rand.Rand, thorough bool, out *bufio.Writer, st *stats,
 	if os.Getenv("VERIF_TRACE") != "" {
 		fmt.Fprintln(os.Stderr, "case", caseNo)
 	}
-	switch rng.Intn(8) {
+	pick := rng.Intn(8)
+	if os.Getenv("VERIF_VERIFY_VARIANT") != "" {
+		pick = 0
+	}
+	switch pick {
 	case 0:
 		runVerifyLitmus(rng, out, st, caseNo)
 		return
@@ -924,7 +934,11 @@ func (c *cluster) startNodeP(n *cnode) { c.startNode(n) }
 //	  arrives afterwards.
 func runVerifyLitmus(rng *rand.Rand, out *bufio.Writer, st *stats, caseNo int) {
 	h := &hist{t0: time.Now(), seenS: map[string]bool{}}
-	variant := rng.Intn(3) // 0: non-voters (5 servers), 1: held acknowledgement (3), 2: uncommitted demotion (4)
+	variant := rng.Intn(4)
+	if v := os.Getenv("VERIF_VERIFY_VARIANT"); v != "" { // debugging aid: force one litmus schedule
+		variant, _ = strconv.Atoi(v)
+	}
+	// 0: non-voters (5 servers), 1: held acknowledgement (3), 2: uncommitted demotion (4), 3: held snapshot acknowledgement (3)
 	variantA := variant == 0
 	nsrv := 3
 	if variantA {
@@ -933,7 +947,7 @@ func runVerifyLitmus(rng *rand.Rand, out *bufio.Writer, st *stats, caseNo int) {
 	if variant == 2 {
 		nsrv = 4
 	}
-	c := &cluster{rng: rng, h: h, blocked: map[[2]int]bool{}, holdMs: map[[2]int]int{}, delayMs: 1, litmus: true}
+	c := &cluster{rng: rng, h: h, blocked: map[[2]int]bool{}, holdMs: map[[2]int]int{}, delayMs: 1, litmus: true, verySlow: variant == 3}
 	_, c.inj = raft.NewInmemTransportWithTimeout("inj", 800*time.Millisecond)
 	c.nodes = []*cnode{nil}
 	var cfg raft.Configuration
@@ -1015,6 +1029,50 @@ func runVerifyLitmus(rng *rand.Rand, out *bufio.Writer, st *stats, caseNo int) {
 			}
 			c.apply(c.nodes[1], "v")
 			st.Hist["verify-litmus-uncommitted-demotion"]++
+		} else if variant == 3 {
+			// 2 falls so far behind that the leader must send it a snapshot; the answer to that
+			// InstallSnapshot is held in the network while 1 is cut off and 2, 3 elect a new leader
+			c.mu.Lock()
+			c.blocked[[2]int{1, 2}] = true
+			c.blocked[[2]int{2, 1}] = true
+			c.mu.Unlock()
+			for k := 0; k < 7; k++ {
+				c.apply(l, "a")
+				time.Sleep(15 * time.Millisecond)
+			}
+			_ = l.r.Snapshot().Error()
+			hold := 400 + rng.Intn(150)
+			c.mu.Lock()
+			c.holdMs[[2]int{2, 1}] = hold
+			delete(c.blocked, [2]int{1, 2})
+			delete(c.blocked, [2]int{2, 1})
+			c.mu.Unlock()
+			// wait until 2 has taken the snapshot (its answer is now travelling)
+			// (the leader's replication routine may still sit in a request to 2 that will time out)
+			for w := 0; w < 2500; w += 5 {
+				time.Sleep(5 * time.Millisecond)
+				if c.nodes[2].r.AppliedIndex() >= 6 {
+					break
+				}
+			}
+			c.mu.Lock()
+			for _, b := range []int{2, 3} {
+				c.blocked[[2]int{1, b}] = true
+				c.blocked[[2]int{b, 1}] = true // (the answer already travelling is not affected)
+			}
+			c.mu.Unlock()
+			for w := 0; w < hold-60; w += 10 {
+				time.Sleep(10 * time.Millisecond)
+				for k := 2; k <= 3; k++ {
+					if c.nodes[k].r.State() == raft.Leader {
+						c.apply(c.nodes[k], "a")
+						w = hold
+						break
+					}
+				}
+			}
+			c.apply(c.nodes[1], "v")
+			st.Hist["verify-litmus-held-snapshot-ack"]++
 		} else {
 			// hold every answer travelling from 2 to 1 for a while, then cut 1 off (requests only)
 			hold := 200 + rng.Intn(150)
